@@ -37,6 +37,18 @@ CLAIMED = {
    text="TLC checks, for every preset call on every two-site layout with <=6 modes, that the transcribed term list (spec/LatticeTerms.tla) has the matrix of the operator written in the documentation (spec/Hamiltonian.tla), is Hermitian and that Kanamori (U'=U-2J) and spin-spin exchange commute with S^+; the real library builds lattices by the same calls and its Fock-space Hamiltonian matrix (symmetries ignored) is compared entry by entry, as exact integers, with the documented operators by TLC (HamTrace.tla): presets, term factories, user terms of 2/4/6 operators in arbitrary order.",
    note="TLC; hfock projection; amplitudes multiples of 1/4; real build; addMagnetization doc/code factor 2 is known finding F13",
    tech="TLA+ documented-operator definitions + TLC; trace validation of the library's Hamiltonian matrix (exact integers)"),
+ "C07": dict(cat="model_checking", ref="6 C07",
+   text="TLC checks that the design level of the symmetry analysis (acceptance, quantum numbers, blocks in order of first appearance, first-state image rule, bimap insertion; spec/Symmetry.tla) satisfies the definition level (blocks without gaps, H block diagonal, every c, c^+, c^+c single-target, bimaps faithful) for a catalogue of models under default/ignored/all single and pairs of linear custom candidates; on the real library (catalogue + random heterogeneous lattices incl. spinless and 3-component sites) the recorded partition, (block, position) addresses and bimaps are checked against the definition level with the exact Hamiltonian by TLC (SymmetryTrace.tla), and the analysis must complete without error.",
+   note="TLC; exact H from the documented operators (C04); candidates diagonal in the Fock basis; F14 (non-linear candidates) and F17 (non-dyadic coefficients) are open known findings",
+   tech="TLA+ design/definition levels of the symmetry analysis + TLC; trace validation of recorded partitions and block maps"),
+ "C03": dict(cat="model_checking", ref="6 C03",
+   text="On catalogue + random Hermitian models under several partitions TLC (SpectrumTrace.tla) checks: prepared block matrices equal the exact Fock-space Hamiltonian (exact integers), H has no element between recorded blocks, every block has as many eigenpairs as states with residual and orthonormality below 1e-9 against that exact matrix (hence the union of block spectra is the full spectrum, no reference eigensolver needed), ground energy is the minimum over blocks, getEigenValues() is the concatenation and getEigenValue(label) is the entry at (block, position) of the label.",
+   note="TLC; residual arithmetic by Eigen in the harness against matrices TLC proved exact; tolerance 1e-9; real build",
+   tech="TLA+ exact Hamiltonian + TLC trace validation of the recorded eigen-system (exact matrices, quantised residuals)"),
+ "C10": dict(cat="model_checking", ref="6 C10",
+   text="Every stored c^+_i, c_i (container adjoint shortcut and one-by-one) and c^+_i c_j of catalogue + random models under several partitions is rotated back to the Fock basis with the stored eigenvectors and compared by TLC (FieldOpTrace.tla) with the exact Jordan-Wigner matrix of spec/Fermion.tla to 1e-9 per entry; the part-by-part adjoint relation of stored c and c^+ is checked; CAR of the Jordan-Wigner matrices is checked by TLC, so the assembled anticommutators follow.",
+   note="TLC; rotation arithmetic by Eigen in the harness; tolerance 1e-9; real build",
+   tech="TLA+ Jordan-Wigner definition + TLC trace validation of rotated-back stored operators"),
 }
 NOT_YET = "check not built yet in this round (planned in DESIGN.md section 6); not claimed until it runs"
 
